@@ -4,6 +4,8 @@ package main
 
 import (
 	"bufio"
+	"bytes"
+	"encoding/binary"
 	"encoding/hex"
 	"encoding/json"
 	"fmt"
@@ -18,6 +20,8 @@ import (
 
 	hdf5 "github.com/scigolib/hdf5"
 	"github.com/scigolib/hdf5/internal/core"
+	"github.com/scigolib/hdf5/internal/structures"
+	"github.com/scigolib/hdf5/internal/utils"
 )
 
 // Subcommand c07worker: the isolated worker of property C07.
@@ -522,5 +526,155 @@ func init() {
 			}
 		}
 		return sc.Err()
+	}
+}
+
+// ------------------------------------------------------------------------------------------------
+// Subcommand c07: the functions modelled in coq/theories/Model/RobustAlloc.v / RobustTerm.v, run on a file
+// image held in memory (bytes.Reader).  One JSON case per line:
+//
+//	{"k":"readbytesat","file":"hex","off":N,"size":N}      utils.ReadBytesAt                -> ok [len] | err
+//	{"k":"safemul","a":N,"b":N}                            utils.SafeMultiply               -> ok [v] | err
+//	{"k":"contig","file":"hex","dims":[..],"es":4|8,"cls":0|1,"addr":N}  core.ReadDatasetFloat64 on a contiguous layout -> ok [n] | err
+//	{"k":"lheap","file":"hex","addr":N,"o":O,"l":L}        structures.LoadLocalHeap         -> ok [len(Data)] | err
+//	{"k":"gcol","file":"hex","addr":N,"os":4|8}            core.ReadGlobalHeapCollection    -> ok [sizes...] | err
+//	{"k":"ohdr","file":"hex","addr":N}                     core.ReadObjectHeader            -> ok [len(Messages)] | err
+//	{"k":"btree","file":"hex","addr":N,"nd":N}             core.ParseBTreeV1Node + CollectAllChunks -> ok [nchunks] | err
+//
+// result {"c":"ok|err|panic","v":[...],"e":"...","alloc":bytes allocated by the call}
+type c07Model struct {
+	K    string   `json:"k"`
+	File string   `json:"file"`
+	Off  uint64   `json:"off"`
+	Size uint64   `json:"size"`
+	A    uint64   `json:"a"`
+	B    uint64   `json:"b"`
+	Dims []uint64 `json:"dims"`
+	ES   uint32   `json:"es"`
+	Cls  uint8    `json:"cls"`
+	Addr uint64   `json:"addr"`
+	O    uint8    `json:"o"`
+	L    uint8    `json:"l"`
+	OS   int      `json:"os"`
+	ND   int      `json:"nd"`
+}
+
+func c07ModelRun(c *c07Model, file []byte) (v []uint64, err error) {
+	r := bytes.NewReader(file)
+	sb := &core.Superblock{Version: 2, OffsetSize: 8, LengthSize: 8, Endianness: binary.LittleEndian}
+	switch c.K {
+	case "readbytesat":
+		b, err := utils.ReadBytesAt(r, c.Off, c.Size, "c07")
+		if err != nil {
+			return nil, err
+		}
+		return []uint64{uint64(len(b))}, nil
+	case "safemul":
+		x, err := utils.SafeMultiply(c.A, c.B)
+		if err != nil {
+			return nil, err
+		}
+		return []uint64{x}, nil
+	case "contig":
+		dt := &core.DatatypeMessage{Class: core.DatatypeClass(c.Cls), Version: 1, Size: c.ES, ClassBitField: 8}
+		dtb, err := core.EncodeDatatypeMessage(dt)
+		if err != nil {
+			return nil, fmt.Errorf("harness: %w", err)
+		}
+		// the size field of the encoded message is what the reader multiplies with
+		dsb, err := core.EncodeDataspaceMessage(c.Dims, nil)
+		if err != nil {
+			return nil, fmt.Errorf("harness: %w", err)
+		}
+		lyb, err := core.EncodeLayoutMessage(core.DataLayoutClass(1), 0, c.Addr, sb, nil)
+		if err != nil {
+			return nil, fmt.Errorf("harness: %w", err)
+		}
+		hdr := &core.ObjectHeader{Messages: []*core.HeaderMessage{
+			{Type: core.MsgDatatype, Data: dtb}, {Type: core.MsgDataspace, Data: dsb}, {Type: core.MsgDataLayout, Data: lyb}}}
+		out, err := core.ReadDatasetFloat64(r, hdr, sb)
+		if err != nil {
+			return nil, err
+		}
+		return []uint64{uint64(len(out))}, nil
+	case "lheap":
+		sb2 := *sb
+		sb2.OffsetSize, sb2.LengthSize = c.O, c.L
+		h, err := structures.LoadLocalHeap(r, c.Addr, &sb2)
+		if err != nil {
+			return nil, err
+		}
+		return []uint64{uint64(len(h.Data))}, nil
+	case "gcol":
+		g, err := core.ReadGlobalHeapCollection(r, c.Addr, c.OS)
+		if err != nil {
+			return nil, err
+		}
+		out := []uint64{}
+		for _, o := range g.Objects {
+			out = append(out, uint64(len(o.Data)))
+		}
+		return out, nil
+	case "ohdr":
+		h, err := core.ReadObjectHeader(r, c.Addr, sb)
+		if err != nil {
+			return nil, err
+		}
+		return []uint64{uint64(len(h.Messages))}, nil
+	case "btree":
+		cd := make([]uint64, c.ND)
+		for i := range cd {
+			cd[i] = 1
+		}
+		n, err := core.ParseBTreeV1Node(r, c.Addr, 8, c.ND, cd)
+		if err != nil {
+			return nil, err
+		}
+		ch, err := n.CollectAllChunks(r, 8, cd)
+		if err != nil {
+			return nil, err
+		}
+		return []uint64{uint64(len(ch))}, nil
+	}
+	return nil, fmt.Errorf("harness: unknown kind %q", c.K)
+}
+
+func init() {
+	handlers["c07"] = func(raw json.RawMessage) (interface{}, error) {
+		var c c07Model
+		if err := json.Unmarshal(raw, &c); err != nil {
+			return nil, err
+		}
+		file, err := hex.DecodeString(c.File)
+		if err != nil {
+			return nil, err
+		}
+		res := map[string]interface{}{}
+		func() {
+			defer func() {
+				if r := recover(); r != nil {
+					res["c"], res["e"] = "panic", fmt.Sprint(r)
+				}
+			}()
+			var ms runtime.MemStats
+			runtime.ReadMemStats(&ms)
+			a0 := ms.TotalAlloc
+			v, err := c07ModelRun(&c, file)
+			runtime.ReadMemStats(&ms)
+			res["alloc"] = ms.TotalAlloc - a0
+			if err != nil {
+				if strings.HasPrefix(err.Error(), "harness:") {
+					res["c"], res["e"] = "harness", err.Error()
+					return
+				}
+				res["c"], res["e"] = "err", err.Error()
+				return
+			}
+			if v == nil {
+				v = []uint64{}
+			}
+			res["c"], res["v"] = "ok", v
+		}()
+		return res, nil
 	}
 }
